@@ -224,3 +224,29 @@ func (e *Env) runProbe(s RunSpec, syncAfter bool) (runner.Result, string) {
 	})
 	return res, out.done()
 }
+
+// runPtraceManyFiles runs the probe under the ptrace runner with a long descriptor list, which lengthens the
+// child's path between clone and setsid.
+func runPtraceManyFiles(s RunSpec, n int) runner.Result {
+	ctx, cancel := s.fill()
+	defer cancel()
+	pf := openProbe()
+	defer pf.Close()
+	devnull, _ := os.Open(os.DevNull)
+	defer devnull.Close()
+	files := make([]uintptr, n)
+	for i := range files {
+		files[i] = devnull.Fd()
+	}
+	r := &ptrace.Runner{
+		Args:     []string{"probe", s.Script},
+		Env:      []string{"PATH=/usr/bin:/bin"},
+		ExecFile: pf.Fd(),
+		Files:    files,
+		Limit:    bigLimit,
+		Seccomp:  allowAll(),
+		Handler:  allowHandler{},
+		SyncFunc: s.SyncFunc,
+	}
+	return r.Run(ctx)
+}
